@@ -158,7 +158,7 @@ func ruleNoPrefixOnJoin(w *core.World, r *core.Report) {
 	fl.Run()
 	n := 0
 	for _, f := range w.RepoFns {
-		if f.Pkg == nil || !strings.HasPrefix(f.Pkg.Pkg.Path(), core.Module+"/pkg/") || strings.Contains(f.Pkg.Pkg.Path(), "/mocks/") {
+		if f.Pkg == nil || !strings.HasPrefix(core.PkgPath(f), core.Module+"/pkg/") || strings.Contains(core.PkgPath(f), "/mocks/") {
 			continue
 		}
 		for _, c := range core.OwnCallsTo(f, "strings.HasPrefix") {
@@ -492,7 +492,7 @@ func c10(w *core.World, r *core.Report) {
 	r.Rule("TARGET-OPTIONS", 6, "sibling agreement of the targets: setRunning and setCandidate call ToXML(true, IncludeNS, OperationWithNamespace, UseOperationRemove) with exactly this field->position map; the three gNMI encodings call their encoder with onlyNewOrUpdated=true and all take the deletes from ToProtoDeletes.")
 	// every ToXML call of the target package (the rendering may live in a shared helper), and both setters reach one
 	for _, f := range w.RepoFns {
-		if f.Pkg == nil || f.Pkg.Pkg.Path() != core.Module+"/pkg/datastore/target" {
+		if f.Pkg == nil || core.PkgPath(f) != core.Module+"/pkg/datastore/target" {
 			continue
 		}
 		for _, c := range core.OwnCallsTo(f, "datastore/target.TargetSource.ToXML") {
@@ -611,7 +611,7 @@ func c10(w *core.World, r *core.Report) {
 	// ---- DELETE-OP
 	r.Rule("DELETE-OP", 4, "deletions are marked only through utils.AddXMLOperation (which applies the delete/remove choice and the namespace option): no CreateAttr(\"operation\"...) in pkg/tree; in toXmlInternal the delete branch of a container comes before its presence branch (a presence container that must be deleted is rendered as a delete, not as a plain or missing element); AddXMLOperation honours useOperationRemove and operationWithNamespace.")
 	for _, f := range w.RepoFns {
-		if f.Pkg == nil || f.Pkg.Pkg.Path() != core.Module+"/pkg/tree" {
+		if f.Pkg == nil || core.PkgPath(f) != core.Module+"/pkg/tree" {
 			continue
 		}
 		for _, c := range core.OwnCallsTo(f, "github.com/beevik/etree.Element.CreateAttr") {
@@ -800,7 +800,7 @@ func ruleAllActorsExcluded(w *core.World, r *core.Report, pop, low *ssa.Function
 							continue
 						}
 						g := fc.Call.StaticCallee()
-						if g == nil || g.Blocks == nil || g.Pkg == nil || g.Pkg.Pkg.Path() != core.Module+"/pkg/tree" {
+						if g == nil || g.Blocks == nil || g.Pkg == nil || core.PkgPath(g) != core.Module+"/pkg/tree" {
 							continue
 						}
 						fromOwners := false
